@@ -1,7 +1,7 @@
 (* C17 -- model of cnvlib.bintest (do_bintest, z_prob, p_adjust_bh) and of
    CopyNumArray.residuals, as the code is NOW.  Executable definitions only;
    lemmas are in Proofs/Bintest.v.  NaN is [None]. *)
-From CNV Require Import Base.Prelude Base.QNum Gen.Params Gen.SegmetricsDefaults Model.Segmetrics.
+From CNV Require Import Base.Prelude Base.QNum Gen.Params Gen.SegmetricsDefaults Model.Ranges Model.Segmetrics.
 From Coq Require Import Qround Qabs Sorting.Mergesort Orders.
 Local Open Scope Q_scope.
 
@@ -75,23 +75,18 @@ Definition p_of (phi_neg : Q -> Q) (z : zval) : option Q :=
   end.
 
 (* ---- residuals ------------------------------------------------------------ *)
-(* iter_ranges_of(segments, "log2", mode="inner"): rows with start >= segment start
-   (start.searchsorted(start)) and end <= segment end (end.searchsorted(end, 'right')) *)
-Definition inner (s : seg) (b : bin) : bool :=
-  String.eqb (b_chr b) (s_chr s) && (s_start s <=? b_start b)%Z && (b_end b <=? s_end s)%Z.
-
-(* a candidate: (index of the bin in the input table, the bin, its residual) *)
-Definition cand := (nat * bin * Q)%type.
+(* a candidate: (index label of the bin in the input table, the bin, its residual) *)
+Definition cand := (tbin * Q)%type.
 Definition c_idx (c : cand) : nat := fst (fst c).
 Definition c_bin (c : cand) : bin := snd (fst c).
 Definition c_res (c : cand) : Q := snd c.
 
-Definition tagged (bins : list bin) : list (nat * bin) := combine (seq 0 (length bins)) bins.
-
-Definition resid_segments (tb : list (nat * bin)) (segs : list seg) : list cand :=
-  concat (map (fun s =>
-    map (fun ib => (ib, qsub (b_log2 (snd ib)) (s_log2 s)))
-        (filter (fun ib => inner s (snd ib)) tb)) segs).
+(* CopyNumArray.residuals(segments) with a log2 column:
+   zip(segments["log2"], self.iter_ranges_of(segments, "log2", mode="inner", keep_empty=True)),
+   bins_lr - seg_lr, concatenated in segment order *)
+Definition resid_segments (tb : list tbin) (segs : list seg) : list cand :=
+  concat (map2 (fun s sb => map (fun ib => (ib, qsub (b_log2 (snd ib)) (s_log2 s))) sb)
+               segs (select_bins QInner tb segs)).
 
 (* by_chromosome(): groupby(sort=False) -- chromosomes in order of first appearance *)
 Fixpoint chroms_in_order (seen : list string) (l : list string) : list string :=
@@ -101,7 +96,7 @@ Fixpoint chroms_in_order (seen : list string) (l : list string) : list string :=
               else c :: chroms_in_order (c :: seen) t
   end.
 
-Definition resid_chromosomes (tb : list (nat * bin)) : list cand :=
+Definition resid_chromosomes (tb : list tbin) : list cand :=
   concat (map (fun c =>
     let rows := filter (fun ib => String.eqb (b_chr (snd ib)) c) tb in
     let med := median (map (fun ib => b_log2 (snd ib)) rows) in
